@@ -228,7 +228,7 @@ def main():
                                                        text=json.dumps(cex)[:1500], lines=[], cover=False))
     failed = [(n, mod, mm, fm, v) for (n, mod, mm, fm, v) in wanted if v and v["status"] == "failed"]
     failed += [(o["unit"], "", dict(file=o.get("file", ""), header=None), dict(fn=o["name"]),
-                dict(status="failed", errors=[dict(kind="verif", title=o.get("detail", ""), text=o.get("detail", ""))]))
+                dict(status="failed", cex=o.get("cex"), errors=[dict(kind="verif", title=o.get("detail", ""), text=o.get("detail", ""))]))
                for o in extra_obls if o["status"] == "failed"]
     und_f = [(n, mod, mm, fm, v) for (n, mod, mm, fm, v) in wanted if (v is None or v["status"] == "undecided")]
     und_f += [(o["unit"], "", dict(file=o.get("file", ""), header=None), dict(fn=o["name"]), dict(status="undecided", errors=[]))
